@@ -5,6 +5,7 @@ import (
 	"go/ast"
 	"go/token"
 	"math/big"
+	"os"
 	"sort"
 	"strings"
 )
@@ -107,6 +108,9 @@ func ruleGap(c *Ctx) {
 				case *ast.BinaryExpr:
 					l := in.eval1(x.X, st)
 					r := in.eval1(x.Y, st)
+					if os.Getenv("DVERIF_DEBUG_GAP") == key {
+						fmt.Println("LEAF", p.posStr(x), p.exprStr(x), l.avKey(), r.avKey())
+					}
 					_, lok := l.(*avExp)
 					_, rok := r.(*avExp)
 					if x.Op == token.SUB && lok && rok {
@@ -123,6 +127,15 @@ func ruleGap(c *Ctx) {
 						if lsc && rsc {
 							checkSink(l, r, x, "comparison "+p.exprStr(x))
 							return top, true
+						}
+						// a coefficient word compared with a value the analysis lost track of (not a constant)
+						_, rIsConst := r.(avInt)
+						_, lIsConst := l.(avInt)
+						if (lsc && !rIsConst && !rsc) || (rsc && !lIsConst && !lsc) {
+							if tl, tr := p.typeOf(x.X), p.typeOf(x.Y); tl != nil && tr != nil && limbsOf(tl) == 1 && limbsOf(tr) == 1 {
+								sinks = append(sinks, gapSink{p.posStr(x), false, "comparison " + p.exprStr(x) + ": one side is a coefficient, the other is not a tracked coefficient at a known scale"})
+								return top, true
+							}
 						}
 					case token.QUO:
 						if lsc {
@@ -141,6 +154,22 @@ func ruleGap(c *Ctx) {
 				}
 				return nil, false
 			}
+			// op-assign forms on scaled scalars: x /= 10^k
+			in.binopHook = func(op token.Token, l, r AV, at ast.Node) (AV, bool) {
+				ls, lsc := asScaled(l)
+				if !lsc {
+					return nil, false
+				}
+				if op == token.QUO {
+					if c, ok := r.(avInt); ok && c.v > 0 {
+						if k, ok := isPow10(big.NewInt(c.v)); ok {
+							return &avScaled{base: ls.base, off: ls.off - k}, true
+						}
+					}
+					return top, true
+				}
+				return nil, false
+			}
 			// final `sres := dSig.cmp(oSig)`
 			in.onCall = func(in *interp, st *state, call *ast.CallExpr, name string, recv AV, args []AV) {
 				if name != "uint128.cmp" {
@@ -151,6 +180,9 @@ func ruleGap(c *Ctx) {
 				if in.curAssign != nil && len(in.curAssign.Rhs) == 1 && ast.Unparen(in.curAssign.Rhs[0]) == ast.Expr(call) {
 					checkSink(recv, args[0], call, "final comparison "+p.exprStr(call))
 				}
+			}
+			if os.Getenv("DVERIF_DEBUG_GAP") == key {
+				in.trace = func(s ast.Stmt, st *state) { fmt.Println("STMT", p.posStr(s)) }
 			}
 			classes := [][]cls{{{"fin", false}, {"fin", false}}}
 			if fn == "Decimal.Cmp" {
@@ -166,6 +198,11 @@ func ruleGap(c *Ctx) {
 			if overflow {
 				c.undecided(key, fd, "interpretation budget exceeded")
 				continue
+			}
+			if os.Getenv("DVERIF_DEBUG_GAP") == key {
+				for _, s := range sinks {
+					fmt.Println("SINK", s.pos, s.ok, s.desc)
+				}
 			}
 			var bad []string
 			seen := map[string]bool{}
